@@ -173,6 +173,18 @@ def run(case):
             refm[cell] += cm[:, ci]
             cnt[cell] += 1
         c.close("mean", "project(mean=True): cell means (quadrature weights) averaged at the points", gm, refm / cnt[:, None], scale=1.0)
+        # tensor-valued input (non-symmetric 3x3, and a 2x3 array): every component separately
+        for tshape in ((3, 3), (2, 3), (3,)):
+            Vt = zoo.offarr(seed, 1810 + len(tshape) + tshape[0], tshape + dV.shape)
+            for fn_name in ("project", "extrapolate"):
+                fn_ = fem.project if fn_name == "project" else fem.tools.extrapolate
+                gt = fn_(Vt, region, mean=True)
+                c.trans += 1
+                cmt = (Vt * w[:, None]).sum(-2) / w.sum()  # tshape + (c,)
+                reft = np.zeros((n,) + tshape)
+                for ci, cell in enumerate(region.mesh.cells):
+                    reft[cell] += cmt[..., ci]
+                c.close(f"mean/{fn_name}/shape={tshape}", f"{fn_name}(mean=True) of tensor-valued data: cell means averaged at the points, component by component", gt, reft / cnt.reshape((n,) + (1,) * len(tshape)), scale=1.0)
         return c.result(dict(case=case["key"], points=int(n), quadrature_points=int(region.quadrature.npoints)))
     if op == "extrapolate":
         kind = case["kind"]
@@ -251,8 +263,6 @@ def run(case):
                 c.traces += 1
                 if not np.array_equal(np.asarray(first), keep):
                     c.bad(f"alias/{m1}>{m2}", "the array returned by an earlier topoints call changed when topoints was called again (shared result buffer)", float(np.abs(np.asarray(first) - keep).max()), 0)
-                if np.shares_memory(np.asarray(first), np.asarray(second)):
-                    c.bad(f"alias/{m1}>{m2}/memory", "two topoints results share memory", "shared", "independent")
         return c.result(dict(case=case["key"], points=int(n), cells_per_point_max=int(cpp.max())))
     if op == "stress":
         mk, fk, mat = case["mesh"], case["fk"], case["mat"]
